@@ -5,18 +5,18 @@ import random
 ID = "C05"
 LEVEL = "exploration"
 TECHNIQUE = "differential runtime monitoring: the real BlockwiseRequest client against an independent RFC 7959 / RFC 8323 section 6 (BERT) reference server (harness/refblock.py) on a lossy virtual-time network; oracles = byte comparison of both bodies, arithmetic over the Block1/Block2 options seen on the wire (SZX 7 counted in 1024-byte units, non-final BERT blocks whole multiples of 1024), and error-or-complete-representation for misbehaving servers"
-LEVEL_TEXT = "Every combination of boundary body lengths x server size exponents 0..7 x client maximum block sizes 0..7 (7 = BERT, with 1..4 blocks per message on either side) x negotiation (initial and mid-transfer reduction, including from BERT to regular blocks) is sampled systematically, with loss/duplication of individual block exchanges and each misbehaving-server variant named in the statement (among them: a later block where block 0 is due, a later block under another response code, a later Block2 response without its Block2 option, a Block1 acknowledgement without its Block1 option on a non-final or -- as a bare 2.31 -- on the final block); held on every transfer executed."
+LEVEL_TEXT = "Every combination of boundary body lengths x server size exponents 0..7 x client maximum block sizes 0..7 (7 = BERT, with 1..4 blocks per message on either side) x negotiation (initial and mid-transfer reduction, including from BERT to regular blocks) is sampled systematically, with loss/duplication of individual block exchanges and each misbehaving-server variant named in the statement (among them: a later block where block 0 is due, a later block under another response code, a later Block2 response without its Block2 option, a server that enlarges its Block2 blocks at aligned offsets or ignores the size asked for -- there the transfer may go through, only the client's own requests must not follow the growth, a Block1 acknowledgement without its Block1 option on a non-final or -- as a bare 2.31 -- on the final block); held on every transfer executed."
 LEVEL_NOTE = "Trusted: harness/refblock.py (reference server, independent of aiocoap), simnet, refcodec. A representation change without ETags is undetectable for any client and not generated; payloads <= 1124 bytes (k x 1024 + 100 on a BERT transport) are legitimately sent unfragmented at SZX >= 6. BERT runs on the simulated datagram transport whose remotes are given, per case, the block size exponent 7 and maximum payload size the RFC 8323 transports' remotes have; TCP framing itself is C15's matter. When a later block arrives under an unsuccessful code (with or without a Block2 option), handing exactly that response to the caller counts as a loud failure as well; a successful response without the Block2 option in that place does not, whatever its payload."
 RULE = (
     "one case = one request through the default API: (method, request body length, response body length, server SZX, client max SZX, BERT blocks per message of client and server, Block1 reduction point, Block2 reduction point, loss profile, misbehaviour and its variant). "
     "Non-trivial = at least one body needed more than one block; distinct = distinct parameter tuples with lengths classified relative to the block size (below/at/above a boundary, number of blocks)"
 )
 ASSUMPTIONS = ["default TransportTuning; one-way latency 1 ms", "with random loss a transfer may legitimately fail with a time-out: such failures are counted, not judged", "a BERT-capable server never sends more 1024-byte blocks per message than the client's maximum payload size holds"]
-REQUIRED_MONITORS = {"refused_upload": 10, "request_body": 200, "response_body": 200, "block1_options": 150, "block2_options": 150, "misbehaving_server": 60, "negotiation": 60, "client_max_szx7": 120, "bert_upload": 70, "bert_reduction": 50, "bert_download": 20, "first_block_number": 30, "code_change": 20, "block2_option_missing": 25, "block1_option_missing": 25}
+REQUIRED_MONITORS = {"refused_upload": 10, "request_body": 200, "response_body": 200, "block1_options": 150, "block2_options": 150, "misbehaving_server": 60, "negotiation": 60, "client_max_szx7": 120, "bert_upload": 70, "bert_reduction": 50, "bert_download": 20, "first_block_number": 30, "code_change": 20, "block2_option_missing": 25, "block1_option_missing": 25, "block2_size_grows": 35}
 
 LENGTHS = [0, 1, 15, 16, 17, 31, 32, 33, 63, 64, 65, 127, 128, 129, 255, 256, 257, 511, 512, 513, 1023, 1024, 1025, 1124, 1125, 2047, 2048, 2049, 5000, 20000]
 ETAG_MIS = ("etag-changes", "etag-vanishes", "etag-appears")
-# (more are drawn in widen(): "b2-first-later-block", "b2-code-changes", and in widen2(): "b2-option-missing", "b1-option-missing")
+# (more are drawn in widen(): "b2-first-later-block", "b2-code-changes", and in widen2(): "b2-option-missing", "b1-option-missing", in widen3(): "b2-size-grows-aligned", "b2-ignores-requested-size")
 MISBEHAVIOURS = ["b1-wrong-num", "b1-wrong-num-final", "b1-more-on-final", "b1-continue-on-final", "b2-wrong-num", "b2-short-with-more", "b2-repeat-prev", "b2-restart-0", "b1-observe-in-continue", "etag-changes", "etag-vanishes", "etag-appears"]
 
 
@@ -36,7 +36,7 @@ def body(r, n, tag):
     return bytes(out[:n])
 
 
-def gen(r, r2, r3, k, tier):
+def gen(r, r2, r3, r4, k, tier):
     method = r.choice(["PUT", "POST", "FETCH", "GET", "PUT"])
     szx = r.randrange(0, 7)
     cmax = r.choice([6, 6, 6, 5, 4, 2, 0, r.randrange(0, 7)])
@@ -65,7 +65,7 @@ def gen(r, r2, r3, k, tier):
         if r.random() < 0.15:
             hint = True  # block size passed in through a Block1 option on the request (the older way) instead of the remote
     p = {"fail1": fail1, "hint": hint, "method": method, "szx": szx, "cmax": cmax, "req_len": req_len, "resp_len": resp_len, "red1": red1, "red2": red2, "loss": loss, "mis": mis, "mis_at": mis_at, "etag": r.choice([True, True, False])}
-    return widen2(widen(p, r2, tier), r3, tier)
+    return widen3(widen2(widen(p, r2, tier), r3, tier), r4, tier)
 
 
 NEW_MIS = ("b2-first-later-block", "b2-code-changes")
@@ -121,6 +121,45 @@ def widen(p, r2, tier):
             p["resp_len"] = size * r2.randrange(1, 5) + r2.choice([1, size // 2, size - 1, size])
             if p["red2"] is not None:
                 p["resp_len"] = min(p["resp_len"], size + unit(min(p["red2"][1], 6)) * budget)
+    return p
+
+
+GROW_MIS = ("b2-size-grows-aligned", "b2-ignores-requested-size")
+
+
+def widen3(p, r4, tier):
+    """Servers that enlarge their Block2 blocks during a transfer (again from a generator of their own)."""
+    if r4.random() >= 0.13 or p["mis"] is not None or p["fail1"] is not None:
+        return p  # (only conforming-server cases are turned into these, the other variants keep their numbers)
+    p["mis"] = r4.choice(GROW_MIS)
+    p["loss"] = None
+    p["fail1"] = None
+    p["mis_at"] = r4.randrange(1, 3)
+    p["mis_arg"] = {"grow": r4.choice([1, 1, 2, 3])}
+    if p["mis"] == "b2-size-grows-aligned":
+        # the server starts out with small blocks; the client could take larger ones
+        p["szx"] = r4.randrange(0, 5)
+        if not p["tp"] or p["cmax"] < 7:
+            p["cmax"] = r4.choice([6, 6, r4.randrange(p["szx"], 7)])
+        if p["red2"] is not None:
+            p["red2"] = (p["red2"][0], min(p["red2"][1], p["szx"]))
+        size = unit(p["szx"])
+        p["resp_len"] = size * r4.randrange(4, 14) + r4.choice([0, 1, size // 2])
+    else:
+        # the client asks for smaller blocks than the server's own (its maximum is smaller), or the server reduced of its
+        # own accord before
+        p["szx"] = r4.randrange(2, 7)
+        if r4.random() < 0.5:
+            p["cmax"] = r4.randrange(0, p["szx"])
+            p["red2"] = None
+        else:
+            if not p["tp"] or p["cmax"] < 7:
+                p["cmax"] = r4.choice([6, 6, r4.randrange(p["szx"], 7)])
+            p["red2"] = (r4.randrange(0, 2), r4.randrange(0, p["szx"]))
+        size = unit(p["szx"])
+        p["resp_len"] = size * r4.randrange(3, 7) + r4.choice([0, 1, size // 2])
+    if p["red1"] is not None:
+        p["red1"] = (p["red1"][0], min(p["red1"][1], p["szx"]))
     return p
 
 
@@ -216,7 +255,7 @@ def run_case(p, seed, rep, case):
     if p.get("mis_arg"):
         first_code = rc_code(2, 5) if p["method"] in ("GET", "FETCH") else rc_code(2, 4)
         named = {"4.04": rc_code(4, 4), "5.00": rc_code(5, 0), "5.03": rc_code(5, 3), "4.00": rc_code(4, 0), "alt": rc_code(2, 4) if first_code == rc_code(2, 5) else rc_code(2, 5), "same": first_code}
-        mis_arg = dict(p["mis_arg"], code=named.get(p["mis_arg"]["code"], p["mis_arg"]["code"]))
+        mis_arg = dict(p["mis_arg"], code=named.get(p["mis_arg"].get("code"), p["mis_arg"].get("code")))
 
     async def main(loop):
         pol = simnet.RandomPolicy(random.Random(seed + 1), **p["loss"]) if p["loss"] else simnet.Policy()
@@ -336,7 +375,7 @@ def judge(p, box, req_body, rep_body, res, rep, case):
         for s in b2reqs:
             num, more, szx = s["b2"]
             if last is not None and szx > last:
-                rep.violation("block2/szx-grew", "the client's Block2 size exponent grew during a transfer", wit(at=s["b2"]), case)
+                rep.violation("wire/block2-request-exponent-grows", "the size exponent of the client's Block2 requests grew during a transfer", wit(at=s["b2"], before=last), case)
                 break
             # a size passed in through the request's Block1 option is a hint for the request body only
             if szx > ((7 if p.get("tp") else 6) if p.get("hint") else p["cmax"]):
@@ -352,7 +391,19 @@ def judge(p, box, req_body, rep_body, res, rep, case):
         rep.monitor("bert_download")
     # ---- outcome ----
     kind = out[0]
-    if p["mis"] == "b1-observe-in-continue":
+    if p["mis"] in GROW_MIS:
+        # larger blocks than asked for at aligned offsets leave every block well-formed and the body assemblable: the
+        # request may go through (with the intact body) or fail with a library error; what the statement rules out is
+        # on the wire (the client's own requests follow the growth), judged above
+        if srv.size_grown:
+            rep.monitor("misbehaving_server")
+            rep.monitor("block2_size_grows")
+        if kind == "exception" and srv.size_grown:
+            if not isinstance(out[1], error.Error):
+                rep.violation("misbehaving-server-wrong-exception/" + type(out[1]).__name__, "the failure is not a library error", wit(), case)
+        else:
+            judge_conforming(p, srv, out, req_body, rep_body, lossy, rep, case, wit, ctx)
+    elif p["mis"] == "b1-observe-in-continue":
         # an Observe option on the 2.31 acknowledgements is out of place but breaks no sequencing rule: the transfer
         # either goes through intact or fails with a library error
         if any(s_["b1"] is not None and s_["b1"][1] for s_ in seen):
@@ -398,7 +449,7 @@ def judge(p, box, req_body, rep_body, res, rep, case):
     if res.loop_exceptions:
         rep.violation("loop-exception/" + str(res.loop_exceptions[0].get("exc_type")), "an exception reached the event loop", wit(loop=res.loop_exceptions[:2]), case)
     size1 = 1 << (min(p["szx"], p["cmax"], 6) + 4)
-    sig = (p.get("tp"), p.get("srv_k"), (p.get("mis_arg") or {}).get("code"), (p.get("mis_arg") or {}).get("payload"), (p.get("mis_arg") or {}).get("where"), p["method"], p["szx"], p["cmax"], lenclass(p["req_len"], size1), lenclass(p["resp_len"], size1), p["red1"] is not None, p["red2"] is not None, p["loss"] is not None, p["mis"], p["etag"], bool(p.get("fail1")), bool(p.get("hint")))
+    sig = (p.get("tp"), p.get("srv_k"), (p.get("mis_arg") or {}).get("code"), (p.get("mis_arg") or {}).get("payload"), (p.get("mis_arg") or {}).get("where"), (p.get("mis_arg") or {}).get("grow"), p["method"], p["szx"], p["cmax"], lenclass(p["req_len"], size1), lenclass(p["resp_len"], size1), p["red1"] is not None, p["red2"] is not None, p["loss"] is not None, p["mis"], p["etag"], bool(p.get("fail1")), bool(p.get("hint")))
     rep.case(sig, nontrivial=len(b1reqs) > 1 or len(b2reqs) > 0)
 
 
@@ -467,8 +518,9 @@ def run_shard(shard, rep, only=None):
     r = random.Random(shard["seed"])
     r2 = random.Random(shard["seed"] * 7919 + 5)
     r3 = random.Random(shard["seed"] * 104729 + 11)
+    r4 = random.Random(shard["seed"] * 15485863 + 17)
     for k in range(shard["n"]):
-        p = gen(r, r2, r3, k, shard["tier"])
+        p = gen(r, r2, r3, r4, k, shard["tier"])
         case = ["case", k]
         if only is not None and only != case:
             continue
